@@ -246,6 +246,7 @@ Inductive call :=
 | CNext (k : kind)                               (* Commander.next *)
 | CNextLoop (k : kind) (snap : list (Z * Z))     (*   for name, job in list(current_jobs.items()) *)
 | CAfter (k : kind) (jid : Z)                    (*   self.after(job) *)
+| CAfterProcs (a : Z)                            (*   Stopper.after, second half: pending process start requests *)
 | CDelCurrent (k : kind) (a : Z)                 (*   del self.current_jobs[name] *)
 | CNextPop (k : kind)                            (*   if planned and not current: pop ... *)
 | CStartJobs (k : kind) (snap : list (Z * Z))    (*   for ... : job.before(); job.next() *)
@@ -553,14 +554,21 @@ Definition step_after (k : kind) (jid : Z) : M R :=
         ret ([CStopApp (j_app j)], [])
       else ret ([], [])
   | KStop =>
+      (* application_start_requests.pop, then starter.start_application runs to completion (possibly re-entering
+         this very method), and only then process_start_requests.pop *)
       do s <- mget ;;
       let a := j_app j in
       let c1 := match aget a (s_app_req s) with Some strat => [CStartApp strat a] | None => [] end in
-      let c2 := match aget a (s_proc_req s) with
-                | Some l => map (fun sp => CStartProc (fst sp) a (snd sp)) l | None => [] end in
-      do _ <- mmod (set_reqs (adel a (s_app_req s)) (adel a (s_proc_req s))) ;;
-      ret (c1 ++ c2, [])
+      do _ <- mmod (set_reqs (adel a (s_app_req s)) (s_proc_req s)) ;;
+      ret (c1 ++ [CAfterProcs a], [])
   end.
+
+Definition step_after_procs (a : Z) : M R :=
+  do s <- mget ;;
+  let c2 := match aget a (s_proc_req s) with
+            | Some l => map (fun sp => CStartProc (fst sp) a (snd sp)) l | None => [] end in
+  do _ <- mmod (set_reqs (s_app_req s) (adel a (s_proc_req s))) ;;
+  ret (c2, []).
 
 Definition step_next_pop (k : kind) : M R :=
   do s <- mget ;;
@@ -748,6 +756,7 @@ Definition step_call (c : call) : M R :=
   | CNext k => do s <- mget ;; ret ([CNextLoop k (cm_current (get_cmdr k s)); CNextPop k; CPublish k], [])
   | CNextLoop k snap => step_next_loop k snap
   | CAfter k jid => step_after k jid
+  | CAfterProcs a => step_after_procs a
   | CDelCurrent k a =>
       do s <- mget ;;
       let cm := get_cmdr k s in
@@ -1116,6 +1125,7 @@ Record sspec := mkSSpec {
   ss_flag_to : list Z;                   (* ... by a timeout *)
   ss_lostids : list Z;
   ss_noresource : bool;                  (* a 'No resource available' failure occurred (class of F-A) *)
+  ss_cnt : alist Z;                      (* counters: plans / runs / last sequence per application and globally *)
   ss_vios : list vio }.
 
 Definition pair_mem (a p : Z) (l : list (Z * Z)) : bool := existsb (fun x => Z.eqb (fst x) a && Z.eqb (snd x) p) l.
@@ -1138,23 +1148,56 @@ Definition set_last (l : list (Z * Z * Z * pstate)) (a p i : Z) (s : pstate) : l
 
 Definition ss_with (ss : sspec) (insts : alist sinst) (last : list (Z * Z * Z * pstate)) (reqs : list oreq) : sspec :=
   mkSSpec insts last reqs (ss_manual_start ss) (ss_manual_stop ss) (ss_user_apps ss) (ss_plans ss) (ss_aborts ss)
-          (ss_flag ss) (ss_flag_to ss) (ss_lostids ss) (ss_noresource ss) (ss_vios ss).
+          (ss_flag ss) (ss_flag_to ss) (ss_lostids ss) (ss_noresource ss) (ss_cnt ss) (ss_vios ss).
 Definition ss_marks (ss : sspec) (ms : list (Z * Z)) (mp : list (Z * Z * Z)) (ua : list Z) (plans : alist Z) : sspec :=
   mkSSpec (ss_insts ss) (ss_last ss) (ss_reqs ss) ms mp ua plans (ss_aborts ss)
-          (ss_flag ss) (ss_flag_to ss) (ss_lostids ss) (ss_noresource ss) (ss_vios ss).
+          (ss_flag ss) (ss_flag_to ss) (ss_lostids ss) (ss_noresource ss) (ss_cnt ss) (ss_vios ss).
 Definition ss_flags (ss : sspec) (aborts : alist Z) (flag flag_to : list Z) (nores : bool) : sspec :=
   mkSSpec (ss_insts ss) (ss_last ss) (ss_reqs ss) (ss_manual_start ss) (ss_manual_stop ss) (ss_user_apps ss)
-          (ss_plans ss) aborts flag flag_to (ss_lostids ss) nores (ss_vios ss).
+          (ss_plans ss) aborts flag flag_to (ss_lostids ss) nores (ss_cnt ss) (ss_vios ss).
 Definition ss_lost_set (ss : sspec) (l : list Z) : sspec :=
   mkSSpec (ss_insts ss) (ss_last ss) (ss_reqs ss) (ss_manual_start ss) (ss_manual_stop ss) (ss_user_apps ss)
-          (ss_plans ss) (ss_aborts ss) (ss_flag ss) (ss_flag_to ss) l (ss_noresource ss) (ss_vios ss).
+          (ss_plans ss) (ss_aborts ss) (ss_flag ss) (ss_flag_to ss) l (ss_noresource ss) (ss_cnt ss) (ss_vios ss).
 Definition ss_add_vio (ss : sspec) (v : vio) : sspec :=
   mkSSpec (ss_insts ss) (ss_last ss) (ss_reqs ss) (ss_manual_start ss) (ss_manual_stop ss) (ss_user_apps ss)
           (ss_plans ss) (ss_aborts ss) (ss_flag ss) (ss_flag_to ss) (ss_lostids ss) (ss_noresource ss)
-          (v :: ss_vios ss).
+          (ss_cnt ss) (v :: ss_vios ss).
+Definition ss_set_cnt (ss : sspec) (c : alist Z) : sspec :=
+  mkSSpec (ss_insts ss) (ss_last ss) (ss_reqs ss) (ss_manual_start ss) (ss_manual_stop ss) (ss_user_apps ss)
+          (ss_plans ss) (ss_aborts ss) (ss_flag ss) (ss_flag_to ss) (ss_lostids ss) (ss_noresource ss) c (ss_vios ss).
+Definition aget0 (k : Z) (l : alist Z) : Z := match aget k l with Some x => x | None => 0 end.
+
+(* counters: what = 1 plans requested, 2 runs observed, 3 a last sequence is known, 4 last sequence; a = 0 is the
+   application level (sequence numbers of the applications) *)
+Definition ck (what : Z) (k : kind) (a : Z) : Z :=
+  what * 1000000 + (match k with KStart => 0 | KStop => 1 end) * 100000 + a.
+Definition cnt_get (ss : sspec) (what : Z) (k : kind) (a : Z) : Z := aget0 (ck what k a) (ss_cnt ss).
+Definition cnt_set (ss : sspec) (what : Z) (k : kind) (a : Z) (v : Z) : sspec :=
+  ss_set_cnt ss (aset (ck what k a) v (ss_cnt ss)).
+Definition cnt_incr (ss : sspec) (what : Z) (k : kind) (a : Z) : sspec :=
+  cnt_set ss what k a (cnt_get ss what k a + 1).
+(* a new plan for application a (and hence at application level) *)
+Definition plan_incr (ss : sspec) (k : kind) (a : Z) : sspec := cnt_incr (cnt_incr ss 1 k a) 1 k 0.
+
+(* direction of the emitted sequence numbers: within one run they only grow (Starter) / decrease (Stopper);
+   going the other way is legitimate only when a further plan was requested *)
+Definition track_seq (ss : sspec) (k : kind) (a : Z) (s : Z) (v : vio) : sspec :=
+  let wrong (last : Z) := match k with KStart => Z.ltb s last | KStop => Z.ltb last s end in
+  let ss1 :=
+    if Z.eqb (cnt_get ss 3 k a) 0 then cnt_incr ss 2 k a
+    else if wrong (cnt_get ss 4 k a)
+         then cnt_incr (if Z.ltb (cnt_get ss 2 k a) (cnt_get ss 1 k a) then ss else ss_add_vio ss v) 2 k a
+         else ss in
+  cnt_set (cnt_set ss1 3 k a 1) 4 k a s.
+
 Definition ss_check (ss : sspec) (ok : bool) (v : vio) : sspec := if ok then ss else ss_add_vio ss v.
 
-Definition aget0 (k : Z) (l : alist Z) : Z := match aget k l with Some x => x | None => 0 end.
+
+(* whoever asked for the failing start (the trace cannot always tell the user command from the application
+   command), a required STOP-strategy failure may make the Starter ask the Stopper to stop the application *)
+Definition spec_failure_manual (cf : config) (ss : sspec) (a p : Z) : sspec :=
+  let r := cf_rules cf a p in
+  if pr_required r && Z.eqb (pr_sfs r) gen_StartingFailureStrategies_STOP then plan_incr ss KStop a else ss.
 
 (* a required process of application a failed to start: the run is aborted for ABORT / STOP *)
 Definition spec_failure (cf : config) (ss : sspec) (a p : Z) (timeout : bool) : sspec :=
@@ -1163,8 +1206,11 @@ Definition spec_failure (cf : config) (ss : sspec) (a p : Z) (timeout : bool) : 
                        || Z.eqb (pr_sfs r) gen_StartingFailureStrategies_STOP) then
     if timeout then ss_flags ss (ss_aborts ss) (ss_flag ss) (zadd a (ss_flag_to ss)) (ss_noresource ss)
     else if zmem a (ss_flag ss) then ss
-    else ss_flags ss (aset a (aget0 a (ss_aborts ss) + 1) (ss_aborts ss)) (zadd a (ss_flag ss)) (ss_flag_to ss)
-                  (ss_noresource ss)
+    else
+      (* with STOP the Starter will ask the Stopper to stop the application: one more stop plan *)
+      let ss0 := if Z.eqb (pr_sfs r) gen_StartingFailureStrategies_STOP then plan_incr ss KStop a else ss in
+      ss_flags ss0 (aset a (aget0 a (ss_aborts ss0) + 1) (ss_aborts ss0)) (zadd a (ss_flag ss0)) (ss_flag_to ss0)
+               (ss_noresource ss0)
   else ss.
 
 (* does this reported state complete (Some false) / fail (Some true) a start request, or leave it pending *)
@@ -1219,8 +1265,12 @@ Definition spec_event (cf : config) (ss : sspec) (i a p : Z) (s : pstate) (expec
         | KStop => if is_stopped s then [] else [o]
         end
       else [o]) (ss_reqs ss) in
+  let failed_manual := existsb (fun o => mine o && kind_eqb (o_kind o) KStart && o_manual o
+                                  && match start_done r (o_manual o) s expected with Some true => true | _ => false end)
+                               (ss_reqs ss) in
   let ss1 := ss_with ss (ss_insts ss) (set_last (ss_last ss) a p i s) reqs in
-  if failed then spec_failure cf ss1 a p false else ss1.
+  if failed then spec_failure cf ss1 a p false
+  else if failed_manual then spec_failure_manual cf ss1 a p else ss1.
 
 
 Definition spec_op (cf : config) (ss : sspec) (o : op) : sspec :=
@@ -1261,7 +1311,8 @@ Definition spec_op (cf : config) (ss : sspec) (o : op) : sspec :=
       let gone := filter (fun o => zmem (o_i o) lost) (ss_reqs ss) in
       let ss1 := ss_with ss (ss_insts ss) (ss_last ss) (filter (fun o => negb (zmem (o_i o) lost)) (ss_reqs ss)) in
       fold_left (fun ss o => match o_kind o with
-                             | KStart => if o_manual o then ss else spec_failure cf ss (o_a o) (o_p o) false
+                             | KStart => if o_manual o then spec_failure_manual cf ss (o_a o) (o_p o)
+                                         else spec_failure cf ss (o_a o) (o_p o) false
                              | KStop => ss end)
                 gone ss1
   | OpInstState i code =>
@@ -1270,24 +1321,24 @@ Definition spec_op (cf : config) (ss : sspec) (o : op) : sspec :=
       | None => ss end
   | OpCall c =>
       match c with
-      | CStartApp _ a | CRestartApp _ a =>
-          ss_marks ss (ss_manual_start ss) (ss_manual_stop ss) (zadd a (ss_user_apps ss))
-                   (aset a (aget0 a (ss_plans ss) + 1) (ss_plans ss))
+      | CStartApp _ a =>
+          plan_incr (ss_marks ss (ss_manual_start ss) (ss_manual_stop ss) (zadd a (ss_user_apps ss))
+                              (aset a (aget0 a (ss_plans ss) + 1) (ss_plans ss))) KStart a
+      | CRestartApp _ a =>
+          plan_incr (plan_incr (ss_marks ss (ss_manual_start ss) (ss_manual_stop ss) (zadd a (ss_user_apps ss))
+                                         (aset a (aget0 a (ss_plans ss) + 1) (ss_plans ss))) KStart a) KStop a
+      | CStopApp a => plan_incr ss KStop a
+      | CStopApps => cnt_incr (fold_left (fun ss ac => cnt_incr ss 1 KStop (ac_name ac)) (cf_apps cf) ss) 1 KStop 0
       | CStartApps =>
-          ss_marks ss (ss_manual_start ss) (ss_manual_stop ss) (ss_user_apps ss)
-                   (fold_left (fun pl ac => aset (ac_name ac) (aget0 (ac_name ac) pl + 1) pl) (cf_apps cf) (ss_plans ss))
+          (fun ss => cnt_incr ss 1 KStart 0)
+          (fold_left (fun ss ac => cnt_incr ss 1 KStart (ac_name ac)) (cf_apps cf)
+            (ss_marks ss (ss_manual_start ss) (ss_manual_stop ss) (ss_user_apps ss)
+               (fold_left (fun pl ac => aset (ac_name ac) (aget0 (ac_name ac) pl + 1) pl) (cf_apps cf) (ss_plans ss))))
       | CStartProc _ a p =>
-          (* accepted only when the process is stopped *)
-          if spec_proc_stopped cf ss a p
-          then ss_marks ss ((a, p) :: ss_manual_start ss) (ss_manual_stop ss) (zadd a (ss_user_apps ss)) (ss_plans ss)
-          else ss
+          ss_marks ss ((a, p) :: ss_manual_start ss) (ss_manual_stop ss) (zadd a (ss_user_apps ss)) (ss_plans ss)
       | CRestartProc _ a p =>
-          if spec_proc_stopped cf ss a p
-          then ss_marks ss ((a, p) :: ss_manual_start ss) (ss_manual_stop ss) (zadd a (ss_user_apps ss)) (ss_plans ss)
-          else if existsb (fun i => is_running_like (last_state ss a p i)) (spec_proc_insts cf a p)
-          then ss_marks ss ((a, p) :: ss_manual_start ss) (spec_stop_marks cf ss a p [] ++ ss_manual_stop ss)
-                        (zadd a (ss_user_apps ss)) (ss_plans ss)
-          else ss
+          ss_marks ss ((a, p) :: ss_manual_start ss) (spec_stop_marks cf ss a p [] ++ ss_manual_stop ss)
+                   (zadd a (ss_user_apps ss)) (ss_plans ss)
       | CStopProc a p ids =>
           ss_marks ss (ss_manual_start ss) (spec_stop_marks cf ss a p ids ++ ss_manual_stop ss) (ss_user_apps ss)
                    (ss_plans ss)
@@ -1306,7 +1357,8 @@ Definition spec_out (cf : config) (k : Z) (ss : sspec) (o : out) : sspec :=
       let others := filter (fun o => kind_eqb (o_kind o) KStart && negb (o_manual o) && negb (o_lost o)) (ss_reqs ss) in
       let ss1 :=
         if manual then ss else
-        let ss_a := ss_check ss (forallb (fun o => negb (Z.eqb (o_a o) a)
+        let ss_t := track_seq (track_seq ss KStart a (pr_start r) V_start_order) KStart 0 (cf_app_start cf a) V_app_order in
+        let ss_a := ss_check ss_t (forallb (fun o => negb (Z.eqb (o_a o) a)
                                              || Z.eqb (pr_start (cf_rules cf a (o_p o))) (pr_start r)) others) V_start_order in
         let ss_b := ss_check ss_a (forallb (fun o => Z.eqb (o_a o) a || negb (Z.ltb 0 (cf_app_start cf a))
                                              || negb (Z.ltb 0 (cf_app_start cf (o_a o)))
@@ -1333,7 +1385,8 @@ Definition spec_out (cf : config) (k : Z) (ss : sspec) (o : out) : sspec :=
       let ss0 := ss_check ss (listed_like (last_state ss a p i)) V_where_running in
       let ss1 :=
         if manual then ss0 else
-        let ss_a := ss_check ss0 (forallb (fun o => negb (Z.eqb (o_a o) a)
+        let ss_t := track_seq (track_seq ss0 KStop a (pr_stop r) V_stop_order) KStop 0 (cf_app_stop cf a) V_stop_app_order in
+        let ss_a := ss_check ss_t (forallb (fun o => negb (Z.eqb (o_a o) a)
                                               || Z.eqb (pr_stop (cf_rules cf a (o_p o))) (pr_stop r)) others) V_stop_order in
         let ss_b := ss_check ss_a (forallb (fun o => Z.eqb (o_a o) a
                                               || Z.eqb (cf_app_stop cf (o_a o)) (cf_app_stop cf a)) others) V_stop_app_order in
@@ -1347,6 +1400,13 @@ Definition spec_out (cf : config) (k : Z) (ss : sspec) (o : out) : sspec :=
       let reqs := filter (fun o => negb (kind_eqb (o_kind o) k' && Z.eqb (o_a o) a && Z.eqb (o_p o) p
                                          && match target with Some i => Z.eqb (o_i o) i | None => false end))
                          (ss_reqs ss) in
+      (* the forced event is handled locally as an event of the LOCAL instance: a start request targeting the local
+         instance whose last report is BACKOFF gets its reference counter reset once more (on_event is re-evaluated) *)
+      let lcnt := match aget local_id (ss_insts ss) with Some ins => in_counter ins | None => 0 end in
+      let reqs := map (fun o => if kind_eqb (o_kind o) KStart && Z.eqb (o_a o) a && Z.eqb (o_p o) p
+                                   && Z.eqb (o_i o) local_id && pstate_eqb (last_state ss a p local_id) BACKOFF
+                                then mkOReq (o_kind o) (o_a o) (o_p o) (o_i o) (o_manual o) (o_op o) lcnt (o_soft o) (o_lost o)
+                                else o) reqs in
       let ss1 := ss_with ss (ss_insts ss) (ss_last ss) reqs in
       let hit := filter (fun o => kind_eqb (o_kind o) k' && Z.eqb (o_a o) a && Z.eqb (o_p o) p
                                   && match target with Some i => Z.eqb (o_i o) i | None => false end) (ss_reqs ss) in
@@ -1354,8 +1414,8 @@ Definition spec_out (cf : config) (k : Z) (ss : sspec) (o : out) : sspec :=
         (* no resource: the command was never requested; it is a user command when the mark is still there *)
         let manual := pair_mem a p (ss_manual_start ss1) in
         let ss2 := if manual
-                   then ss_marks ss1 (pair_remove a p (ss_manual_start ss1)) (ss_manual_stop ss1) (ss_user_apps ss1)
-                                 (ss_plans ss1)
+                   then spec_failure_manual cf (ss_marks ss1 (pair_remove a p (ss_manual_start ss1)) (ss_manual_stop ss1)
+                                                         (ss_user_apps ss1) (ss_plans ss1)) a p
                    else spec_failure cf ss1 a p false in
         ss_flags ss2 (ss_aborts ss2) (ss_flag ss2) (ss_flag_to ss2) true
       else match k' with
@@ -1407,7 +1467,7 @@ Fixpoint spec_walk (cf : config) (k : Z) (ss : sspec) (ops : list top) (observed
 
 Definition spec_init (cf : config) : sspec :=
   mkSSpec (map (fun x => (fst (fst x), mkSInst (snd (fst x)) (snd x))) (cf_insts cf))
-          [] [] [] [] [] [] [] [] [] [] false [].
+          [] [] [] [] [] [] [] [] [] [] false [] [].
 
 Definition case_vios (c : case) : sspec :=
   let '(cf, ops, observed) := c in spec_walk cf 0 (spec_init cf) ops observed.
